@@ -37,7 +37,9 @@ def keyReport (priv pub : List Char) (kp : Bytes) : String :=
   -- a configuration that also carries a password: `Crypto::new` looks at the private key first
   let both := if pp.isSome && pk == some kp then okHex (some kp) else "err"
   let both2 := if pp.isSome then okHex (some kp) else "err"
-  s!"privparse={privparse} pubparse={okHex pk} pair={pair} crypto={crypto} both={both} bothnopub={both2}"
+  -- without configured trusted keys a node trusts exactly its own public key
+  let deftrust := if pp.isSome then okHex (some kp) else "err"
+  s!"privparse={privparse} pubparse={okHex pk} pair={pair} crypto={crypto} both={both} bothnopub={both2} deftrust={deftrust}"
 
 def b62Step (t : List String) (implObs : String) : Option (String × String) :=
   match t with
@@ -87,7 +89,7 @@ def b62Step (t : List String) (implObs : String) : Option (String × String) :=
         let good := field implObs "privparse" = some want && field implObs "pubparse" = some want &&
           field implObs "pair" = some "ok" && field implObs "crypto" = some "ok" &&
           -- "denotes the same keys" also next to a password in the same configuration
-          field implObs "both" = some want && field implObs "bothnopub" = some want &&
+          field implObs "both" = some want && field implObs "bothnopub" = some want && field implObs "deftrust" = some want &&
           (op = "seedcheck" || field implObs "again" = some "same") &&
           parsePublicKey implPub = some kp && (C18.parsePrivateKey implPriv).isSome
         some (m, if good then "ok" else "FAIL generated-key-not-usable")
